@@ -23,7 +23,7 @@ Definition dense {A} (n : nat) (l : list (nat * list A)) : list (list A) :=
 
 Definition n_segs : nat := 47.
 Definition n_sets : nat := 8.
-Definition n_idsets : nat := 2.
+Definition n_idsets : nat := 3.
 
 (* entity table: id |-> (get_dir() as text, name) *)
 Definition ents := list (nat * (str * str)).
@@ -84,14 +84,6 @@ Definition project_of (c : acase) : project :=
                 | [] => []
                 end |}.
 
-(* fixed phases: two observed sequences (entity ids) agree key by key (Out/Project.v key_equiv) *)
-Definition key_equivb (e : ents) (a b : list nat) : bool :=
-  let kd (l : list nat) := map (fun id => (id, let dn := ent_get id e in (fst dn, final_name (snd dn)))) l in
-  let ka := kd a in let kb := kd b in
-  forallb (fun x => list_eqb Nat.eqb (map fst (filter (fun y => key_eqb (snd y) (snd x)) ka))
-                                     (map fst (filter (fun y => key_eqb (snd y) (snd x)) kb)))
-          (ka ++ kb).
-
 (* the enumeration the model predicts for a run *)
 Definition model_enum (P : project) (r : arun) : list pfile :=
   if run_sorted r then isort file_leb (enumerate (p_files P) (run_pi r))
@@ -103,17 +95,16 @@ Definition model_ok (c : acase) (P : project) (r0 r : arun) : bool :=
   let idt := dense n_idsets (reqs_of e (run_idsets r)) in
   let enum := model_enum P r in
   let st := final_state enum fixed idt in
-  let covered := idsel_of pipeline enum (p_idsel P) in
+  let covered := idsel_of pipeline enum fixed (p_idsel P) in
   is_permb (run_pi r) (length (p_files P))
   (* the files are parsed in the model's order *)
   && list_eqb (list_eqb str_eqb) (map f_path enum) (map f_path (enumerate (p_files P) (run_obs r)))
-  (* fixed phases: in every run of the real code the same sequence, up to the order among requests for
-     different (directory, name) keys; the same entities otherwise *)
+  (* fixed phases: the same sequence in every run of the real code; the same entities otherwise *)
   && forallb (fun k => if run_sorted r
-                       then key_equivb e (sparse_get k (run_fixed r0)) (sparse_get k (run_fixed r))
+                       then list_eqb Nat.eqb (sparse_get k (run_fixed r0)) (sparse_get k (run_fixed r))
                        else same_ids (sparse_get k (run_fixed r0)) (sparse_get k (run_fixed r)))
              (seq 0 n_sets)
-  (* id-set phases: the same entities in every run, all of them requested by an earlier by-file phase *)
+  (* id-set phases: the same entities in every run, all of them requested by an earlier phase *)
   && forallb (fun k => same_ids (sparse_get k (run_idsets r0)) (sparse_get k (run_idsets r))
                        && forallb (fun id => existsb (fun q => Nat.eqb id (r_id q)) (nth k covered []))
                                   (sparse_get k (run_idsets r)))
